@@ -25,7 +25,7 @@ fn width_class(x: u64) -> &'static str {
 
 /// conformance: the parsed body holds what the model says was put into the builder
 fn conformance(prop: &str, ctx: &mut Ctx, w: &World, st: &St, t: &PTx, fin: &Finish) {
-    let model_inputs: BTreeSet<(Vec<u8>, u64)> = st.m.inputs.iter().map(|(i, _)| op_outpoint_key(*i)).collect();
+    let model_inputs: BTreeSet<(Vec<u8>, u64)> = st.m.inputs.iter().map(|(i, _)| crate::builder::utxo_outpoint_key(*i)).collect();
     let got: BTreeSet<(Vec<u8>, u64)> = t.inputs.iter().cloned().collect();
     if got.len() != t.inputs.len() {
         ctx.violation(format!("{}/conformance/duplicate-input-in-body", prop), format!("{} inputs, {} distinct", t.inputs.len(), got.len()));
@@ -66,7 +66,7 @@ fn conformance(prop: &str, ctx: &mut Ctx, w: &World, st: &St, t: &PTx, fin: &Fin
         ctx.violation(format!("{}/conformance/proposals-or-donation", prop), format!("{} / {:?}", t.proposals.len(), t.donation));
     }
     let coll: BTreeSet<(Vec<u8>, u64)> = t.collateral.iter().cloned().collect();
-    let want_coll: BTreeSet<(Vec<u8>, u64)> = st.m.collateral.iter().map(|i| op_outpoint_key(*i)).collect();
+    let want_coll: BTreeSet<(Vec<u8>, u64)> = st.m.collateral.iter().map(|i| crate::builder::utxo_outpoint_key(*i)).collect();
     if coll != want_coll {
         ctx.violation(format!("{}/conformance/collateral", prop), format!("{:?}", st.m.collateral));
     }
